@@ -1,2 +1,122 @@
-(* props/C12.v — placeholder while the proofs are being written. *)
-Require Import Aiuti.FLock Aiuti.FLockSpec.
+(* props/C12.v — C12: FileLock obeys the Lock/RLock contract and leaves no residue on
+   failure.  ONLY theorem statements about the executable model FLock.v, each closed by
+   a lemma of FLockSeq.v (single-call analyses FLockAcq.v / FLockRel.v, invariants
+   FLockInv.v / FLockTL.v / FLockFD.v), with Print Assumptions beneath.
+
+   Reading aid.  [s0 := run (init_cfg ocfg tcfg fl) evs] with [viol s0 = false] is ANY
+   state the model can reach (any objects / threads / processes, any schedule prefix
+   with other threads in the middle of their own calls, any OSError script fl, whose
+   unfired entries are still pending in s0).  [do_call fuel s0 t c] runs thread t's call
+   c to completion with t running alone (virtual time jumps to t's own deadlines);
+   results: RTrue / RFalse / RTimeout (TimeoutError of acquire_ctx / with) / ROSErr
+   (a re-raised OSError) / RNone (release) / RWouldBlock (waits for something only
+   another thread can do) / ROutOfFuel.  [normalise ob blk tm] is filelock.py l.135-139
+   (argument normalisation).                                                       *)
+From Coq Require Import List Arith NArith Bool.
+Import ListNotations.
+Require Import Aiuti.FLock Aiuti.FLockInv Aiuti.FLockSpec Aiuti.FLockTL Aiuti.FLockFD Aiuti.FLockMutex
+               Aiuti.FLockExec Aiuti.FLockAcq Aiuti.FLockRel Aiuti.FLockSeq.
+
+(* A failing acquire — False, TimeoutError or a re-raised OSError — under EVERY fault
+   script (any number of OSErrors in open / lock / unlock / close), from every
+   reachable state, for every flavour: every object is exactly as before (counter
+   restored, thread lock given back, no descriptor recorded), the table of open
+   descriptors is exactly as before (nothing leaked), the kernel holder is untouched,
+   no other thread's state changed, the caller is idle again and not inside. *)
+Theorem fail_no_residue :
+  forall ocfg tcfg fl evs t o m blk tm poll skip fuel,
+    let s0 := run (init_cfg ocfg tcfg fl) evs in
+    viol s0 = false ->
+    t_pc (thr s0 t) = PIdle -> dead s0 (t_proc (thr s0 t)) = false ->
+    o_proc (objs s0 o) = t_proc (thr s0 t) ->
+    let s' := fst (do_call fuel s0 t (CAcq o m blk tm poll skip)) in
+    let r := snd (do_call fuel s0 t (CAcq o m blk tm poll skip)) in
+    r = RFalse \/ r = RTimeout \/ r = ROSErr ->
+    (forall o', objs s' o' = objs s0 o') /\
+    (forall d, fdown s' d = fdown s0 d) /\ holder s' = holder s0 /\
+    (forall t', t' <> t -> thr s' t' = thr s0 t') /\
+    t_pc (thr s' t) = PIdle /\ t_cs (thr s' t) = t_cs (thr s0 t) /\ t_res (thr s' t) = r :: t_res (thr s0 t).
+Proof. exact fail_no_residue_lemma. Qed.
+Print Assumptions fail_no_residue.
+
+(* A non-blocking acquire (blocking=False and no timeout, l.135-139) returns at once:
+   no virtual time passes, and it never blocks — whatever the state and fault script. *)
+Theorem nonblocking_immediate :
+  forall ocfg tcfg fl evs t o m blk tm poll skip fuel,
+    let s0 := run (init_cfg ocfg tcfg fl) evs in
+    viol s0 = false ->
+    t_pc (thr s0 t) = PIdle -> dead s0 (t_proc (thr s0 t)) = false ->
+    o_proc (objs s0 o) = t_proc (thr s0 t) ->
+    let s' := fst (do_call fuel s0 t (CAcq o m blk tm poll skip)) in
+    let r := snd (do_call fuel s0 t (CAcq o m blk tm poll skip)) in
+    fst (normalise (objs s0 o) blk tm) = false -> r <> ROutOfFuel ->
+    now s' = now s0 /\ r <> RWouldBlock.
+Proof. exact nonblocking_immediate_lemma. Qed.
+Print Assumptions nonblocking_immediate.
+
+(* A timed acquire (timeout T >= 0, explicit or the constructor's) ends within T for the
+   in-process lock stage plus T for the OS-lock stage plus one poll interval, with any
+   result, under any fault script; and it never blocks. *)
+Theorem timed_bound :
+  forall ocfg tcfg fl evs t o m blk tm poll skip fuel T,
+    let s0 := run (init_cfg ocfg tcfg fl) evs in
+    viol s0 = false ->
+    t_pc (thr s0 t) = PIdle -> dead s0 (t_proc (thr s0 t)) = false ->
+    o_proc (objs s0 o) = t_proc (thr s0 t) ->
+    let s' := fst (do_call fuel s0 t (CAcq o m blk tm poll skip)) in
+    let r := snd (do_call fuel s0 t (CAcq o m blk tm poll skip)) in
+    snd (normalise (objs s0 o) blk tm) = TVal T -> r <> ROutOfFuel ->
+    (now s' <= now s0 + T + T + poll)%N /\ r <> RWouldBlock.
+Proof. exact timed_bound_lemma. Qed.
+Print Assumptions timed_bound.
+
+(* A release that gives the OS lock up (outermost level or force) under EVERY fault
+   script — unlock and/or close may raise — still ends normally with: no descriptor
+   recorded, counter 0, the descriptor closed, the kernel lock not held through it,
+   everything else untouched; and the thread lock is fully released when counter and
+   RLock depth agreed before (the representation invariant of the sequential view). *)
+Theorem release_faults :
+  forall ocfg tcfg fl evs t o d force fuel,
+    let s0 := run (init_cfg ocfg tcfg fl) evs in
+    viol s0 = false ->
+    t_pc (thr s0 t) = PIdle -> dead s0 (t_proc (thr s0 t)) = false ->
+    o_fd (objs s0 o) = Some d -> o_own (objs s0 o) = Some t ->
+    (o_cnt (objs s0 o) <= 1 \/ force = true) ->
+    o_cnt (objs s0 o) + 4 <= fuel ->
+    let s' := fst (do_call fuel s0 t (CRel o force)) in
+    snd (do_call fuel s0 t (CRel o force)) = RNone /\
+    o_fd (objs s' o) = None /\ o_cnt (objs s' o) = 0 /\ fdown s' d = None /\ holder s' <> Some d /\
+    t_pc (thr s' t) = PIdle /\
+    (forall o', o' <> o -> objs s' o' = objs s0 o') /\ (forall t', t' <> t -> thr s' t' = thr s0 t') /\
+    (forall d', d' <> d -> fdown s' d' = fdown s0 d') /\
+    (o_dep (objs s0 o) = o_cnt (objs s0 o) -> o_own (objs s' o) = None /\ o_dep (objs s' o) = 0).
+Proof. exact release_faults_lemma. Qed.
+Print Assumptions release_faults.
+
+(* Non-vacuity: two objects and two threads in one process; thread 1 holds object 1.
+   Thread 0 on object 0: a non-blocking acquire gives False at once; a timed
+   acquire_ctx polls and raises TimeoutError at tick 6 <= 5+5+2; with an OSError
+   injected into the close after the failed flock the acquire re-raises it; a release
+   with OSErrors in both unlock and close still gives the lock up. *)
+Definition acq (o : oid) : call := CAcq o MPlain true TNone 2%N 0.
+Definition ex0 (fl : list (skind * nat)) : state :=
+  run (init_cfg [(0, true, TNeg); (0, false, TVal 4%N)] [(0, []); (0, [acq 1])] fl) [EStep 1; EStep 1; EStep 1; EStep 1].
+Example ex0_hyps :
+  viol (ex0 []) = false /\ t_pc (thr (ex0 []) 0) = PIdle /\ dead (ex0 []) (t_proc (thr (ex0 []) 0)) = false /\
+  o_proc (objs (ex0 []) 0) = t_proc (thr (ex0 []) 0) /\ holder (ex0 []) = Some 0 /\ inside_b (ex0 []) 1 = true.
+Proof. vm_compute. repeat split. Qed.
+Example fail_examples :
+  snd (do_call 50 (ex0 []) 0 (CAcq 0 MPlain false TNone 2%N 0)) = RFalse /\
+  fst (normalise (objs (ex0 []) 0) false TNone) = false /\
+  snd (do_call 50 (ex0 []) 0 (CAcq 0 MCtx true (TVal 5%N) 2%N 0)) = RTimeout /\
+  snd (normalise (objs (ex0 []) 0) true (TVal 5%N)) = TVal 5%N /\
+  now (fst (do_call 50 (ex0 []) 0 (CAcq 0 MCtx true (TVal 5%N) 2%N 0))) = 6%N /\
+  snd (do_call 50 (ex0 [(KClose, 0)]) 0 (CAcq 0 MPlain true (TVal 5%N) 2%N 0)) = ROSErr /\
+  nfired (fst (do_call 50 (ex0 [(KClose, 0)]) 0 (CAcq 0 MPlain true (TVal 5%N) 2%N 0))) = 1.
+Proof. vm_compute. repeat split. Qed.
+Example release_faults_example :
+  let s0 := ex0 [(KUnlock, 0); (KClose, 0)] in
+  viol s0 = false /\ o_fd (objs s0 1) = Some 0 /\ o_own (objs s0 1) = Some 1 /\ o_cnt (objs s0 1) = 1 /\
+  o_dep (objs s0 1) = o_cnt (objs s0 1) /\
+  nfired (fst (do_call 5 s0 1 (CRel 1 false))) = 2 /\ holder (fst (do_call 5 s0 1 (CRel 1 false))) = None.
+Proof. vm_compute. repeat split. Qed.
